@@ -48,7 +48,20 @@ pub fn run(run: &mut Run, seed: u64, thorough: bool, replay: Option<&str>, corpu
                 run.case(&format!("# {}", short), "died");
             }
             Ok(lines) => {
+                let mut mop: Option<String> = None;
                 for l in lines {
+                    if let Some(m) = l.strip_prefix("M ") {
+                        mop = Some(m.to_string());
+                        continue;
+                    }
+                    if let Some(i) = l.strip_prefix("I ") {
+                        if let Some(m) = mop.take() {
+                            let ev = run.evaluations;
+                            run.case(&m, i.trim_end());
+                            run.evaluations = ev; // evaluations count characters, not streams
+                        }
+                        continue;
+                    }
                     let parts: Vec<&str> = l.split_whitespace().collect();
                     match parts.first() {
                         Some(&"P") => {
